@@ -192,6 +192,32 @@ pub fn run_c05(seed: u64, n: usize, out: &mut Out) {
             emit(out, &case, &e_un, &rules, &resources, &q, "chk-unoptimized");
         }
     }
+    // plain (un-anchored) families without an indexable token, some members longer than the whole request URL: fused, the
+    // short members still match (whatever the order of the members inside the fused rule)
+    for round in 0..6 {
+        let opt: &str = ["", "$script", "$script,third-party"][round % 3];
+        let mut lines: Vec<String> = ["/advertisementbannerrotatorwithaverylongnameindeed", "/advertisementplaceholderframeforthewholepage", "/sponsoredcontentwidgetloaderscriptbundle", "/adjs", "/adpx", "/zq"]
+            .iter().map(|l| format!("{}{}", l, opt)).collect();
+        if round >= 3 {
+            lines.reverse();
+        }
+        let e_opt = build(&lines, true, &[], &resources);
+        let e_un = build(&lines, false, &[], &resources);
+        let mut e_live = build(&lines, false, &[], &resources);
+        e_live.verif_blocker_mut().optimize();
+        for u in ["https://a.io/adpx", "https://a.io/adjs", "https://a.io/zq", "https://a.io/advertisementbannerrotatorwithaverylongnameindeed", "https://a.io/x"] {
+            if let Some(q) = make_req(u, "https://source.example/", "script") {
+                let (a, b, c) = (e_opt.check_network_request(&q.req), e_un.check_network_request(&q.req), e_live.check_network_request(&q.req));
+                if a.matched != b.matched || c.matched != b.matched {
+                    out.fail("fused-plain-family-lost-a-short-member", None, json!({"rules": lines, "url": u, "optimized": a.matched, "unoptimized": b.matched, "optimized_live": c.matched}));
+                }
+                let rules = parse_all(&lines);
+                let case = Case { lines: lines.clone(), optimize: true, tags: vec![] };
+                emit(out, &case, &e_opt, &rules, &resources, &q, "chk-optimized");
+                out.bump("short_member_probes");
+            }
+        }
+    }
     // large families: however many rules of one bucket are fusable together, every one of them keeps blocking its
     // own URL (sizes around the powers of two a piecewise fusion would use)
     for round in 0..(n / 60).max(2) {
